@@ -534,7 +534,8 @@ def mon_c14(ex, info, col):
                 out.append(V("C14", "C14:logged-not-WORKING-while-a-task-is-WORKING", ex, {"k": k, "component": cn, "state": clog[k], "tasks": ts}))
             if any(s in (S.T_READY, S.T_WORKING) for s in ts) and clog[k] == S.C_NONE:
                 out.append(V("C14", "C14:logged-NONE-while-a-task-is-READY-or-WORKING", ex, {"k": k, "component": cn, "tasks": ts}))
-            if k > 0:
+            # (the logs of a backward run that were reversed into forward-time reading run the life cycle backwards: no monotonicity claim)
+            if k > 0 and not (ex.opts.get("backward") and ex.opts.get("rev", True)):
                 if clog[k - 1] != S.C_NONE and clog[k] == S.C_NONE:
                     out.append(V("C14", "C14:logged-returned-to-NONE", ex, {"k": k, "component": cn, "log": clog}))
                 if clog[k - 1] == S.C_FINISHED and clog[k] != S.C_FINISHED:
